@@ -3,6 +3,7 @@ package main
 // Lock sets, monitors (havoc at acquire, invariant at release), guarded-by ownership checks, sync.Once.
 
 import (
+	"sort"
 	"fmt"
 	"go/token"
 	"go/types"
@@ -161,6 +162,13 @@ func (e *Engine) acquire(st *State, fr *Frame, p Val, mode string, pos token.Pos
 			for _, inv := range m.Invs {
 				st.assume(env.evalBool(inv.Expr))
 			}
+			if !(st.unit.Contract != nil && st.unit.Contract.Seq) {
+				// what this path knew when it last released the lock is related to the new state by the stable clauses
+				if prev, ok := st.lastRelease[key]; ok {
+					e.relyStable(st, m, base, stt, prev)
+				}
+			}
+			hl.snap = snapshotHeaps(st)
 		}
 	}
 	st.locks = append(st.locks, hl)
@@ -184,6 +192,16 @@ func (e *Engine) release(st *State, fr *Frame, p Val, mode string, pos token.Pos
 					name := e.siteName(st, fr, "monitor-inv["+nm+"]", pos, ins)
 					st.oblige("monitor-inv", name, env.evalBool(inv.Expr), pos)
 				}
+				if st.lastRelease == nil {
+					st.lastRelease = map[string]map[string]string{}
+				} else {
+					cp := make(map[string]map[string]string, len(st.lastRelease))
+					for k, v := range st.lastRelease {
+						cp[k] = v
+					}
+					st.lastRelease = cp
+				}
+				st.lastRelease[key] = snapshotHeaps(st)
 			}
 			st.locks = append(st.locks[:i:i], st.locks[i+1:]...)
 			return
@@ -317,17 +335,51 @@ func (e *Engine) lockCheckField(st *State, fr *Frame, stt types.Type, field, bas
 			}
 		}
 		name := e.siteName(st, fr, "guarded-by["+field+"]", pos, ins)
+		// frozen_when <expr>: once expr holds no writer is enabled any more, so reads need no lock. Checked on both
+		// sides: a read without the lock proves expr; a write (under the lock) proves that expr does not hold yet.
+		var frozen *SExpr
+		if i := strings.Index(own, "frozen_when "); i >= 0 {
+			ex, err := parseSpecExpr(own[i+len("frozen_when "):])
+			if err != nil {
+				e.specErrors["frozen_when of "+field+": "+err.Error()] = true
+			} else {
+				frozen = ex
+			}
+		}
+		frozenTerm := func() string {
+			ts := e.typeSpecFor(stt)
+			rv := "this"
+			if ts != nil && ts.RecvVar != "" {
+				rv = ts.RecvVar
+			}
+			env := &Env{eng: e, st: st, pkg: e.typesPkg(ts.Pkg), vars: map[string]Val{}, where: "frozen_when of " + field}
+			env.vars[rv] = Val{S: base, T: types.NewPointer(stt)}
+			return env.evalBool(frozen)
+		}
 		if held {
+			if frozen != nil && write {
+				st.oblige("guarded-by", e.siteName(st, fr, "not-frozen["+field+"]", pos, ins), not(frozenTerm()), pos)
+			}
 			e.trivial++
 			e.guardedOK++
 			return
 		}
+		if frozen != nil && !write {
+			st.oblige("guarded-by", name, frozenTerm(), pos)
+			return
+		}
 		st.oblige("guarded-by", name, "false", pos)
-	case "immutable_after":
+	case "owned_by", "owned_by_caller":
+		// confined to one goroutine by the protocol of use: not checkable by a lock set; listed as an assumption
+		e.assumptions["ownership: "+namedOf(stt).Obj().Name()+"."+field+" is "+own+" (confinement is assumed, not checked)"] = true
+	case "immutable_after", "config":
 		if !write {
 			return
 		}
 		ok := false
+		if strings.HasPrefix(base, "new_") {
+			ok = true // the object was allocated by this unit and is not shared yet
+		}
 		for _, f := range fs[1:] {
 			if e.inFunctionNamed(st, f) {
 				ok = true
@@ -617,11 +669,15 @@ func (e *Engine) modelCondWait(st *State, fr *Frame, cond Val, pos token.Pos, in
 					name := e.siteName(st, fr, "monitor-inv["+nm+"]", pos, ins)
 					st.oblige("monitor-inv", name, env.evalBool(inv.Expr), pos)
 				}
+				before := snapshotHeaps(st)
 				e.havocGuarded(st, l.mon, l.base, l.stt)
+				st.skipStable = true
 				env = e.monitorEnv(st, l.mon, l.base, l.stt)
 				for _, inv := range l.mon.Invs {
 					st.assume(env.evalBool(inv.Expr))
 				}
+				e.relyStable(st, l.mon, l.base, l.stt, before)
+				st.locks[i].snap = snapshotHeaps(st)
 			}
 			return
 		}
@@ -658,4 +714,178 @@ func (e *Engine) guardedFieldStore(st *State, fr *Frame, a *Addr, pos token.Pos,
 	}
 	name := e.siteName(st, fr, "guarded-field-store["+f.Name()+"]", pos, ins)
 	st.oblige("guarded-field-store", name, "false", pos)
+}
+
+// ownershipComplete: in ownership mode every field of a struct type that carries ownership clauses must carry one
+// (synchronisation primitives excepted); one obligation per field.
+func (e *Engine) ownershipComplete(pkgPath string) {
+	cf, ok := e.contracts[pkgPath]
+	if !ok {
+		return
+	}
+	pkg := e.spkgs[pkgPath]
+	if pkg == nil {
+		return
+	}
+	var names []string
+	for n := range cf.Types {
+		names = append(names, n)
+	}
+	sort.Strings(names)
+	for _, n := range names {
+		ts := cf.Types[n]
+		if len(ts.Owner) == 0 {
+			continue
+		}
+		obj := pkg.Pkg.Scope().Lookup(n)
+		if obj == nil {
+			continue
+		}
+		stt, ok := obj.Type().Underlying().(*types.Struct)
+		if !ok {
+			continue
+		}
+		for i := 0; i < stt.NumFields(); i++ {
+			f := stt.Field(i)
+			goal := "false"
+			if _, has := ts.Owner[f.Name()]; has || isSyncPrimitive(f.Type()) {
+				goal = "true"
+			}
+			if _, isMap := f.Type().Underlying().(*types.Map); isMap && goal == "true" {
+				if _, has := ts.Owner[f.Name()+"[]"]; !has {
+					goal = "false" // the contents of a map need their own clause
+				}
+			}
+			e.addObligation(&Obligation{Name: fmt.Sprintf("%s.%s#ownership-complete[%s]", e.shortPkg(pkgPath), n, f.Name()), Kind: "ownership-complete",
+				Func: "type " + e.shortPkg(pkgPath) + "." + n, Pos: e.posString(f.Pos()), Goal: goal})
+		}
+	}
+}
+
+func isSyncPrimitive(t types.Type) bool {
+	n := namedOf(t)
+	if n == nil || n.Obj().Pkg() == nil {
+		return false
+	}
+	return n.Obj().Pkg().Path() == "sync" || n.Obj().Pkg().Path() == "sync/atomic"
+}
+
+func snapshotHeaps(st *State) map[string]string {
+	m := make(map[string]string, len(st.heaps))
+	for k, v := range st.heaps {
+		m[k] = v
+	}
+	return m
+}
+
+// stableEnv evaluates a monitor's two-state clauses: old() refers to snap.
+func (e *Engine) stableEnv(st *State, m *Monitor, base string, stt types.Type, snap map[string]string) *Env {
+	env := e.monitorEnv(st, m, base, stt)
+	env.oldSnap = snap
+	env.hasOld = true
+	return env
+}
+
+// guardedHeapNames: the heaps through which the state guarded by a monitor is reached.
+func (e *Engine) guardedHeapNames(m *Monitor, stt types.Type) []string {
+	s := stt.Underlying().(*types.Struct)
+	var out []string
+	for _, g := range m.Guards {
+		i := findField(s, g)
+		if i < 0 {
+			if ts := e.typeSpecFor(stt); ts != nil {
+				out = append(out, "GF!"+ts.Name+"!"+g)
+			}
+			continue
+		}
+		fh, _ := fieldHeapName(stt, s, i)
+		out = append(out, fh)
+		switch t := s.Field(i).Type().Underlying().(type) {
+		case *types.Map:
+			dn, vn, _, _, _ := mapHeapNames(t)
+			out = append(out, dn, vn)
+			if it, ok := t.Elem().Underlying().(*types.Map); ok {
+				idn, ivn, _, _, _ := mapHeapNames(it)
+				out = append(out, idn, ivn)
+			}
+		case *types.Slice:
+			en, _ := elemHeapName(t.Elem())
+			out = append(out, en)
+		}
+	}
+	return out
+}
+
+// stableStep: an instruction executed under a monitor lock changed guarded state: the change must be one that the
+// monitor's stable clauses allow (guarantee side of rely/guarantee; the relation is checked to be transitive once).
+func (e *Engine) stableStep(st *State, fr *Frame, held []heldLock, before map[string]string, ins ssa.Instruction) {
+	if st.skipStable {
+		st.skipStable = false
+		return
+	}
+	switch ins.(type) {
+	case *ssa.Jump, *ssa.If:
+		return // heaps change at a jump only when a loop header abstracts the iterations (each checked in the body)
+	}
+	for _, l := range held {
+		if l.mon == nil || len(l.mon.Stable) == 0 || l.mode != "W" {
+			continue
+		}
+		changed := false
+		for _, h := range e.guardedHeapNames(l.mon, l.stt) {
+			if before[h] != st.heaps[h] {
+				changed = true
+			}
+		}
+		if !changed {
+			continue
+		}
+		e.stableTransitive(st, l)
+		env := e.stableEnv(st, l.mon, l.base, l.stt, before)
+		for j, c := range l.mon.Stable {
+			nm := c.Name
+			if nm == "" {
+				nm = fmt.Sprintf("%d", j)
+			}
+			name := e.siteName(st, fr, "monitor-stable["+nm+"]", ins.Pos(), ins)
+			st.oblige("monitor-stable", name, env.evalBool(c.Expr), ins.Pos())
+		}
+	}
+}
+
+// stableTransitive: R(s0,s1) and R(s1,s2) imply R(s0,s2) for the conjunction R of a monitor's stable clauses, over
+// arbitrary guarded states (emitted once per monitor).
+func (e *Engine) stableTransitive(st *State, l heldLock) {
+	key := l.mon.Pkg + "." + l.mon.Type + "." + l.mon.Lock
+	if e.stableDone[key] {
+		return
+	}
+	e.stableDone[key] = true
+	d := st.clone()
+	d.quiet = 0
+	s0 := snapshotHeaps(d)
+	e.havocGuarded(d, l.mon, l.base, l.stt)
+	s1 := snapshotHeaps(d)
+	e.relyStable(d, l.mon, l.base, l.stt, s0)
+	e.havocGuarded(d, l.mon, l.base, l.stt)
+	e.relyStable(d, l.mon, l.base, l.stt, s1)
+	env := e.stableEnv(d, l.mon, l.base, l.stt, s0)
+	for j, c := range l.mon.Stable {
+		nm := c.Name
+		if nm == "" {
+			nm = fmt.Sprintf("%d", j)
+		}
+		d.oblige("monitor-stable", fmt.Sprintf("%s.(*%s).%s#stable-transitive[%s]", e.shortPkg(l.mon.Pkg), l.mon.Type, l.mon.Lock, nm), env.evalBool(c.Expr), token.NoPos)
+	}
+}
+
+// relyStable: other threads' critical sections ran between snap and now.
+func (e *Engine) relyStable(st *State, m *Monitor, base string, stt types.Type, snap map[string]string) {
+	if snap == nil || len(m.Stable) == 0 {
+		return
+	}
+	env := e.stableEnv(st, m, base, stt, snap)
+	for _, c := range m.Stable {
+		st.assume(env.evalBool(c.Expr))
+	}
 }
